@@ -863,6 +863,21 @@ func c02Composite(r *Result, seed int64) {
 		} else if okSet(got) {
 			continue
 		}
+		// is the chain one of the listed patterns (decided by the Lean model's predicates on the chain's expression list)?
+		var flags c02Flags
+		if res, e := AskLean([][]interface{}{{"chain.render", ch.json(), []interface{}{false, nil}, []interface{}{}}}); e == nil {
+			var out struct {
+				Sound    bool `json:"sound"`
+				MixedNot bool `json:"mixedNot"`
+			}
+			if json.Unmarshal(res[0], &out) == nil {
+				flags = c02Flags{Sound: out.Sound, MixedNot: out.MixedNot, OK: true}
+			}
+		}
+		if id, isListed := c02Classify(flags); id != "" && isListed {
+			r.KnownFinding(id, "composite key: rows differ from the logical combination of the units")
+			continue
+		}
 		r.Violate(Violation{Kind: "e2e", Suite: "pk-composite", Input: c02Case{Seed: seed, Rows: rowStr, Chain: ch.desc(), Fin: fin + " model key " + key(target)},
 			Observed: got, Expected: accept[0], Note: "the model value's primary key (id AND loc) is one AND unit of the chain"})
 	}
